@@ -5,7 +5,7 @@ package goverter
 // Contracts for the root package (comment-only; checked by /verif/engine).
 
 // every output file: create the directory (0755), then write the whole content (0644)
-//@ func writeFiles
+//@ func writeFiles(files)
 //@   props C09 C15 C17 C13 C16
 //@   propagates
 //@   maprange 1 unordered-result paths
@@ -15,14 +15,14 @@ package goverter
 //@   loop@C15,C16 2 invariant idx > 0 ==> reached("os.MkdirAll#1") && reached("os.WriteFile#1")
 
 // ---- C17: generate everything in memory, write only after every converter succeeded ----
-//@ func GenerateConverters
+//@ func GenerateConverters(c)
 //@   props C17 C15 C13
 //@   propagates
 //@   requires@C13 c != nil
 //@   at call writeFiles#1 assert err == nil
 
 // both package loads get the same build tags; the generator gets the output build constraint
-//@ func generateConvertersRaw
+//@ func generateConvertersRaw(c)
 //@   props C17 C16
 //@   propagates
 //@   requires@C13 c != nil
